@@ -303,6 +303,14 @@ theorem world_link_len (w : World) (k a b : Nat) (x : Option Obj) : (w.link k a 
             · exact setObs_len _ _ _
             · exact rfl
 
+theorem world_setRootObj_len (w : World) (k a : Nat) : (w.setRootObj k a).All (SameLen w.obs.length) := by
+  unfold World.setRootObj
+  split
+  · trivial
+  · split
+    · exact rfl
+    · split <;> exact rfl
+
 theorem world_unlink_len (w : World) (k a b : Nat) : (w.unlink k a b).All (SameLen w.obs.length) := by
   unfold World.unlink
   split
@@ -500,6 +508,7 @@ theorem stepX_slots {n : Nat} {tw : TW} (h : Slots n tw) (op : TWOpX) : Slots n 
   | assign j k => exact ofObsOnly_slots h (world_assign_len _ _ _)
   | removeSon k a s => exact removeSon_slots h k a s
   | removeSons k a => exact removeSons_slots h k a
+  | setRoot k a => exact ofO_slots h (world_setRootObj_len _ _ _)
 
 theorem runX_slots {n : Nat} (ops : List TWOpX) : ∀ tw : TW, Slots n tw → Slots n (tw.runX ops) := by
   induction ops with
@@ -514,6 +523,7 @@ theorem stepX_inv {tw : TW} (hi : Inv tw) (op : TWOpX) : Inv (tw.stepX op) := by
   | assign j k => exact assignObs_inv hi j k
   | removeSon k a s => exact removeSon_inv hi k a s
   | removeSons k a => exact removeSons_inv hi k a
+  | setRoot k a => exact ofO_inv hi (world_setRootObj_inv hi.winv k a)
 
 theorem runX_inv (ops : List TWOpX) : ∀ tw : TW, Inv tw → Inv (tw.runX ops) := by
   induction ops with
